@@ -768,12 +768,35 @@ def rule_r7(ctx) -> List[R.Inst]:
     return insts
 
 
+def rule_r8(ctx) -> List[R.Inst]:
+    """writing denotes the same chart: the writers leave the chart they serialise untouched (effect analysis)"""
+    M, E = ctx.M, ctx.E
+    rid = "C06.R8"
+    insts = []
+    qs = [LISTS[s] + ".to_yaml" for s in ("hits", "holds", "bpms", "svs")] + [QUAMAP + ".write", QUAMETA + "._write_meta"]
+    for q in qs:
+        fn = M.fn(q)
+        file = M.mods[fn.mod].rel
+        s = E.summary(q)
+        key = ".".join(q.rsplit(".", 2)[-2:])
+        if s.mut:
+            (p, f), sites = sorted(s.mut.items())[0]
+            insts.append(R.viol(rid, key, file, sites[0].line,
+                                f"{key} modifies the chart it writes ('{sites[0].text}'): the first document is right, but the in-memory "
+                                f"chart changes on every write, so a second write (or any later use) denotes a different chart",
+                                construct=f"{key}: {sites[0].text}"))
+        else:
+            insts.append(R.ok(rid, key, file, fn.node.lineno, idiom="Mut = {} (works on a copy / fresh frames)"))
+    return insts
+
+
 SPECS = [
     RuleSpec("C06.R1", rule_r1, 21, "A1", "metadata key table: same key, same field, inverse transform, own default"),
     RuleSpec("C06.R2", rule_r2, 30, "A1", "object codecs compose to the identity: list, item and chart-level readers against the list/item writers"),
     RuleSpec("C06.R3", rule_r3, 4, "A2", "emitted keys ⊆ format keys ⊇ consumed keys, numeric keys typed"),
     RuleSpec("C06.R4", rule_r4, 3, "A1", "EndTime presence <=> hold, on both sides"),
     RuleSpec("C06.R5", rule_r5, 3, "A1", "three sections: popped by read, set by write, bound to the same lists"),
+    RuleSpec("C06.R8", rule_r8, 6, "A3", "the writers do not modify the chart they serialise"),
     RuleSpec("C06.R7", rule_r7, 2, "A1", "read_file / write_file pass the text through unchanged (no doubled line breaks)"),
     RuleSpec("C06.R6", rule_r6, 11, "A8", "defaults for omitted keys are applied before use and leave no NaN"),
 ]
